@@ -797,3 +797,215 @@ Proof.
     assert (Nat.eqb d0 d1 = false) as -> by (apply Nat.eqb_neq; lia).
     assert (Nat.leb d0 d1 = false) as -> by (apply Nat.leb_gt; lia). lra.
 Qed.
+
+(* ================================================================== C. the convolution operator of the frames (model C03) *)
+Lemma combine_nth_map {A B} (l1 : list A) (l2 : list B) d1 d2 n : length l1 = n -> length l2 = n ->
+  combine l1 l2 = map (fun s => (nth s l1 d1, nth s l2 d2)) (seq 0 n).
+Proof.
+  revert l2 n. induction l1 as [|a l1 IH]; intros [|b l2] [|n] H1 H2; cbn in *; try discriminate; auto.
+  f_equal. rewrite <- seq_shift, map_map. apply IH; lia.
+Qed.
+Lemma hits_entries_nz (v : list R) (frames : list (list (nat * R))) i n : length v = n -> length frames = n ->
+  sumR (hits i (@entries_nz ROps v frames)) = sumR (map (fun s => nth s v 0 * sumR (hits i (nth s frames []))) (seq 0 n)).
+Proof.
+  intros Hv Hf. unfold entries_nz. rewrite hits_flat_map. rfix. rewrite (combine_nth_map v frames 0 [] n) by assumption.
+  rewrite map_map. apply sumR_map_ext. intros s _. cbn [fst snd]. runfold.
+  destruct (Reqb (nth s v 0) 0) eqn:Ez.
+  - rbool. rewrite Ez. unfold hits at 1. cbn. ring.
+  - rewrite (hits_map i (fun tk : nat * R => fst tk) (fun tk : nat * R => nth s v 0 * snd tk)).
+    rewrite hits_as_map. rewrite <- sumR_map_scal. apply sumR_map_ext. intros tk _. destruct (Nat.eqb (fst tk) i); ring.
+Qed.
+Lemma hits_entries (v : list R) (frames : list (list (nat * R))) i n : length v = n -> length frames = n ->
+  sumR (hits i (@entries ROps v frames)) = sumR (map (fun s => nth s v 0 * sumR (hits i (nth s frames []))) (seq 0 n)).
+Proof.
+  intros Hv Hf. unfold entries. rewrite hits_flat_map. rfix. rewrite (combine_nth_map v frames 0 [] n) by assumption.
+  rewrite map_map. apply sumR_map_ext. intros s _. cbn [fst snd]. ropen.
+  rewrite (hits_map i (fun tk : nat * R => fst tk) (fun tk : nat * R => nth s v 0 * snd tk)).
+  rewrite hits_as_map. rewrite <- sumR_map_scal. apply sumR_map_ext. intros tk _. destruct (Nat.eqb (fst tk) i); ring.
+Qed.
+Lemma entries_nz_bound (v : list R) frames n : (forall s tk, In tk (nth s frames []) -> (fst tk < n)%nat) ->
+  Forall (fun e => (fst e < n)%nat) (@entries_nz ROps v frames).
+Proof.
+  intros H. apply Forall_forall. intros en Hin. unfold entries_nz in Hin. apply in_flat_map in Hin.
+  destruct Hin as [[x f] [Hc Hin]]. cbn [fst snd] in Hin.
+  destruct (eqb ROps x zero); [contradiction|]. apply in_map_iff in Hin. destruct Hin as [tk [<- Htk]]. cbn [fst].
+  apply in_combine_r in Hc. apply In_nth with (d := []) in Hc. destruct Hc as [s [_ Hs]]. apply (H s). now rewrite Hs.
+Qed.
+Lemma entries_bound (v : list R) frames n : (forall s tk, In tk (nth s frames []) -> (fst tk < n)%nat) ->
+  Forall (fun e => (fst e < n)%nat) (@entries ROps v frames).
+Proof.
+  intros H. apply Forall_forall. intros en Hin. unfold entries in Hin. apply in_flat_map in Hin.
+  destruct Hin as [[x f] [Hc Hin]]. cbn [fst snd] in Hin.
+  apply in_map_iff in Hin. destruct Hin as [tk [<- Htk]]. cbn [fst].
+  apply in_combine_r in Hc. apply In_nth with (d := []) in Hc. destruct Hc as [s [_ Hs]]. apply (H s). now rewrite Hs.
+Qed.
+Lemma nth_column (M : @mat ROps) p s : nth s (@column ROps M p) 0 = mget M s p.
+Proof.
+  unfold column. rewrite mget_R. destruct (lt_dec s (length M)) as [H|H].
+  - rewrite (nth_indep _ 0 (nth p (@nil R) 0)) by (now rewrite map_length).
+    now rewrite (map_nth (fun row : list R => nth p row 0) M []).
+  - rewrite (nth_overflow (map _ M)) by (rewrite map_length; lia). rewrite (nth_overflow M) by lia. destruct p; reflexivity.
+Qed.
+
+Theorem convolve_matrix_is_Cop (c : @convolver ROps) (M : @mat ROps) n i p :
+  length M = n -> frames_ok c n -> (i < n)%nat -> (p < ncols M)%nat ->
+  mget (convolve_matrix c M) i p = sumR (map (fun s => mget M s p * Cop c i s) (seq 0 n)).
+Proof.
+  intros HM [Hfl Hfb] Hi Hp. unfold convolve_matrix. rewrite mget_R. rewrite HM.
+  rewrite nth_map_seq by exact Hi. rewrite map_map. unfold ncols in Hp. rewrite nth_map_seq by exact Hp.
+  runfold. rewrite scatter_gather_zeros by (now apply entries_nz_bound).
+  rewrite (hits_entries_nz _ _ i n); [| unfold column; now rewrite map_length | exact Hfl].
+  apply sumR_map_ext. intros s _. rewrite nth_column. reflexivity.
+Qed.
+Lemma shape_convolve_matrix (c : @convolver ROps) (M : @mat ROps) : shape (length M) (ncols M) (convolve_matrix c M).
+Proof.
+  unfold convolve_matrix. split; [now rewrite map_length, seq_length|]. intros a Ha.
+  rewrite nth_map_seq by exact Ha. now rewrite !map_length, seq_length.
+Qed.
+Theorem convolve_no_blurring_is_Cop (c : @convolver ROps) (img : list R) n i :
+  length img = n -> frames_ok c n -> (i < n)%nat ->
+  nth i (convolve_no_blurring c img) 0 = sumR (map (fun s => nth s img 0 * Cop c i s) (seq 0 n)).
+Proof.
+  intros HM [Hfl Hfb] Hi. unfold convolve_no_blurring. rfix. rewrite HM.
+  rewrite scatter_gather_zeros by (now apply entries_bound).
+  now rewrite (hits_entries _ _ i n).
+Qed.
+
+(* ================================================================== D. the blocks of both formalisms are B_i^T N^-1 B_j *)
+Lemma sumR_mul_distr {A B} (f : A -> R) (g : B -> R) la lb :
+  sumR (map f la) * sumR (map g lb) = sumR (map (fun a => sumR (map (fun b => f a * g b) lb)) la).
+Proof. induction la as [|a la IH]; cbn [map sumR]; [ring|]. rewrite <- IH, sumR_map_scal. ring. Qed.
+Lemma sumR_scal2 {A} (f : A -> R) x y l : sumR (map (fun a => x * f a * y) l) = x * sumR (map f l) * y.
+Proof. induction l as [|a l IH]; cbn [map sumR]; [ring|]. rewrite IH. ring. Qed.
+
+Lemma quad_factor {A B C} (x : A -> R) (y : B -> R) (c : C -> A -> R) (c' : C -> B -> R) (w : C -> R) la lb lc :
+  sumR (map (fun a => sumR (map (fun b => x a * sumR (map (fun i => c i a * c' i b * w i) lc) * y b) lb)) la)
+  = sumR (map (fun i => sumR (map (fun a => x a * c i a) la) * sumR (map (fun b => y b * c' i b) lb) * w i) lc).
+Proof.
+  transitivity (sumR (map (fun a => sumR (map (fun b => sumR (map (fun i => (x a * c i a) * (y b * c' i b) * w i) lc)) lb)) la)).
+  - apply sumR_map_ext. intros a _. apply sumR_map_ext. intros b _. rewrite <- sumR_scal2.
+    apply sumR_map_ext. intros i _. ring.
+  - transitivity (sumR (map (fun i => sumR (map (fun a => sumR (map (fun b => (x a * c i a) * (y b * c' i b) * w i) lb)) la)) lc)).
+    + rewrite (sumR_swap (fun i a => sumR (map (fun b => x a * c i a * (y b * c' i b) * w i) lb)) lc la).
+      apply sumR_map_ext. intros a _.
+      rewrite (sumR_swap (fun i b => x a * c i a * (y b * c' i b) * w i) lc lb). reflexivity.
+    + apply sumR_map_ext. intros i _. rewrite sumR_mul_distr. rewrite <- sumR_map_mul_l.
+      apply sumR_map_ext. intros a _. rewrite <- sumR_map_mul_l. reflexivity.
+Qed.
+
+(* blurred mapping matrix of a mapper, written through its encoding *)
+Definition Bm (e : @enc ROps) (c : @convolver ROps) (n i p : nat) : R := sumR (map (fun s => E e s p * Cop c i s) (seq 0 n)).
+
+(* mapper / mapper block through a dense overlap matrix W = C^T N^-1 C *)
+Lemma block_via_W e0 e1 (c : @convolver ROps) (s : list R) (W : nat -> nat -> R) n a b :
+  (forall d0 d1, (d0 < n)%nat -> (d1 < n)%nat ->
+      W d0 d1 = sumR (map (fun i => Cop c i d0 * Cop c i d1 * / (nth i s 0 * nth i s 0)) (seq 0 n))) ->
+  sumR (map (fun d0 => sumR (map (fun d1 => E e0 d0 a * W d0 d1 * E e1 d1 b) (seq 0 n))) (seq 0 n))
+  = sumR (map (fun i => Bm e0 c n i a * Bm e1 c n i b / (nth i s 0 * nth i s 0)) (seq 0 n)).
+Proof.
+  intros HW.
+  transitivity (sumR (map (fun d0 => sumR (map (fun d1 => E e0 d0 a *
+       sumR (map (fun i => Cop c i d0 * Cop c i d1 * / (nth i s 0 * nth i s 0)) (seq 0 n)) * E e1 d1 b) (seq 0 n))) (seq 0 n))).
+  - apply sumR_map_ext. intros d0 H0. apply sumR_map_ext. intros d1 H1. apply in_seq in H0, H1. rewrite HW by lia. reflexivity.
+  - rewrite (quad_factor (fun d0 => E e0 d0 a) (fun d1 => E e1 d1 b) (fun i d0 => Cop c i d0) (fun i d1 => Cop c i d1)
+                         (fun i => / (nth i s 0 * nth i s 0))).
+    apply sumR_map_ext. intros i _. unfold Bm, Rdiv. reflexivity.
+Qed.
+
+Lemma G_sum_swap2 rws e0 e1 n a b : length rws = n ->
+  G rws e0 e1 n a b + G rws e1 e0 n b a =
+  sumR (map (fun d0 => sumR (map (fun d1 => E e0 d0 a * (U rws d0 d1 + U rws d1 d0) * E e1 d1 b) (seq 0 n))) (seq 0 n)).
+Proof.
+  intros Hn. unfold G. rewrite Hn.
+  rewrite (sumR_swap (fun d0 d1 => E e1 d0 b * U rws d0 d1 * E e0 d1 a) (seq 0 n) (seq 0 n)).
+  rewrite <- sumR_map_add. apply sumR_map_ext. intros d0 _. rewrite <- sumR_map_add.
+  apply sumR_map_ext. intros d1 _. ring.
+Qed.
+
+(* hypothesis shapes used below:
+   HW : the dense overlap matrix of the model is C^T N^-1 C          (discharged by wt_dense_is_overlap)
+   Hwd: w_tilde_data is C^T N^-1 d                                    (discharged by wt_data_is_adjoint) *)
+Definition W_is_overlap (c : @convolver ROps) (s : list R) (W : @mat ROps) (n : nat) : Prop :=
+  forall d0 d1, (d0 < n)%nat -> (d1 < n)%nat ->
+    mget W d0 d1 = sumR (map (fun i => Cop c i d0 * Cop c i d1 * / (nth i s 0 * nth i s 0)) (seq 0 n)).
+Definition wd_is_adjoint (c : @convolver ROps) (d s wd : list R) (n : nat) : Prop :=
+  forall k, (k < n)%nat -> nth k wd 0 = sumR (map (fun i => Cop c i k * (nth i d 0 / (nth i s 0 * nth i s 0))) (seq 0 n)).
+
+(* mapper diagonal block of the w-tilde formalism *)
+Theorem wt_diag_block noise K nfs (c : @convolver ROps) s e P a b :
+  let n := length nfs in
+  W_is_overlap c s (@wt_dense ROps noise K nfs) n -> enc_ok e P -> (a < P)%nat -> (b < P)%nat ->
+  let '(pre, idx, lens) := @preload ROps noise K nfs in
+  mget (@curv_preload ROps pre idx lens e P) a b =
+  sumR (map (fun i => Bm e c n i a * Bm e c n i b / (nth i s 0 * nth i s 0)) (seq 0 n)).
+Proof.
+  intros n HW He Ha Hb. pose proof (preload_rows_recovered noise K nfs) as HR.
+  destruct (@preload ROps noise K nfs) as [[pre idx] lens] eqn:EP. cbv beta iota in HR.
+  assert (Hlens : length lens = n).
+  { unfold preload in EP. inversion EP. now rewrite map_length, preload_rows_length. }
+  rewrite curv_preload_spec; auto.
+  - rfix. rewrite HR, Hlens. rewrite <- (block_via_W e e c s (fun d0 d1 => mget (@wt_dense ROps noise K nfs) d0 d1)) by exact HW.
+    apply sumR_map_ext. intros d0 H0. apply sumR_map_ext. intros d1 H1. apply in_seq in H0, H1.
+    rewrite preload_represents_dense by (unfold n in *; lia). reflexivity.
+  - rfix. rewrite HR, Hlens. apply preload_rows_ok.
+Qed.
+(* off-diagonal block between two mappers: off(e0,e1) + off(e1,e0)^T *)
+Lemma mget_transpose (M : @mat ROps) n p a b : shape n p M -> (0 < n)%nat -> (a < p)%nat -> (b < n)%nat ->
+  mget (transpose M) a b = mget M b a.
+Proof.
+  intros [HL HR] Hn Ha Hb. rewrite mget_R. unfold transpose.
+  assert (ncols M = p) as -> by (unfold ncols; rewrite hd_nth; apply HR; lia).
+  rewrite nth_map_seq by exact Ha. rewrite HL. rewrite nth_map_seq by exact Hb. reflexivity.
+Qed.
+Lemma mget_madd (A B : @mat ROps) n p a b : shape n p A -> shape n p B -> (a < n)%nat -> (b < p)%nat ->
+  mget (madd A B) a b = mget A a b + mget B a b.
+Proof.
+  intros [HA1 HA2] [HB1 HB2] Ha Hb. rewrite !mget_R. unfold madd.
+  rewrite (combine_nth_map A B [] [] n) by assumption. rewrite map_map. rewrite nth_map_seq by exact Ha. cbn [fst snd].
+  unfold vadd. rewrite (combine_nth_map _ _ 0 0 p) by auto. rewrite map_map. rewrite nth_map_seq by exact Hb. reflexivity.
+Qed.
+Theorem wt_off_block noise K nfs (c : @convolver ROps) s e0 P0 e1 P1 a b :
+  let n := length nfs in
+  W_is_overlap c s (@wt_dense ROps noise K nfs) n -> enc_ok e0 P0 -> enc_ok e1 P1 -> (a < P0)%nat -> (b < P1)%nat ->
+  let '(pre, idx, lens) := @preload ROps noise K nfs in
+  mget (@off_diag ROps pre idx lens e0 P0 e1 P1) a b =
+  sumR (map (fun i => Bm e0 c n i a * Bm e1 c n i b / (nth i s 0 * nth i s 0)) (seq 0 n)).
+Proof.
+  intros n HW He0 He1 Ha Hb. pose proof (preload_rows_recovered noise K nfs) as HR.
+  destruct (@preload ROps noise K nfs) as [[pre idx] lens] eqn:EP. cbv beta iota in HR.
+  assert (Hlens : length lens = n).
+  { unfold preload in EP. inversion EP. now rewrite map_length, preload_rows_length. }
+  unfold off_diag.
+  rewrite (mget_madd _ _ P0 P1); auto using shape_off_preload.
+  2:{ unfold transpose. split; [now rewrite map_length, seq_length; unfold ncols, off_preload, reshape; destruct P1; [lia|]; cbn; rewrite map_length, seq_length|].
+      intros x Hx. destruct P1 as [|P1]; [lia|].
+      assert (ncols (@off_preload ROps pre idx lens e1 (S P1) e0 P0) = P0) as ->.
+      { unfold ncols, off_preload, reshape. cbn. now rewrite map_length, seq_length. }
+      rewrite nth_map_seq by exact Hx. rewrite map_length, seq_length. unfold off_preload, reshape. now rewrite map_length, seq_length. }
+  rewrite (mget_transpose _ P1 P0); auto using shape_off_preload; try lia.
+  assert (Hok : rows_ok (rows_of (combine idx pre) lens) n) by (rfix; rewrite HR; apply preload_rows_ok).
+  rewrite (off_preload_spec pre idx lens e0 P0 e1 P1 a b n); auto.
+  rewrite (off_preload_spec pre idx lens e1 P1 e0 P0 b a n); auto.
+  rewrite G_sum_swap2 by (rewrite rows_of_length; exact Hlens).
+  rfix. rewrite HR. rewrite <- (block_via_W e0 e1 c s (fun d0 d1 => mget (@wt_dense ROps noise K nfs) d0 d1)) by exact HW.
+  apply sumR_map_ext. intros d0 H0. apply sumR_map_ext. intros d1 H1. apply in_seq in H0, H1.
+  rewrite preload_represents_dense by (unfold n in *; lia). reflexivity.
+Qed.
+
+(* mapper / function-list block *)
+Theorem wt_mapper_func_block (c : @convolver ROps) e P (Bf : @mat ROps) (s : list R) n a l :
+  frames_ok c n -> length Bf = n -> length (e_dw e) = n -> enc_ok e P -> (a < P)%nat -> (l < ncols Bf)%nat ->
+  mget (@off_mapper_func ROps e P (div_rows_sq Bf s) (image_frames c)) a l =
+  sumR (map (fun i => Bm e c n i a * mget Bf i l / (nth i s 0 * nth i s 0)) (seq 0 n)).
+Proof.
+  intros [Hfl Hfb] HB Hdw He Ha Hl. rewrite off_mapper_func_spec by (rewrite ?ncols_div_rows_sq; auto).
+  rewrite Hdw.
+  transitivity (sumR (map (fun d0 => sumR (map (fun i => E e d0 a * Cop c i d0 * (mget Bf i l / (nth i s 0 * nth i s 0))) (seq 0 n))) (seq 0 n))).
+  - apply sumR_map_ext. intros d0 _.
+    transitivity (E e d0 a * sumR (map (fun iw : nat * R => mget (div_rows_sq Bf s) (fst iw) l * snd iw) (nth d0 (image_frames c) []))).
+    { f_equal. apply sumR_map_ext. intros ik _. ring. }
+    rewrite (group_by_index _ (fun i => mget (div_rows_sq Bf s) i l) n) by (intros iw Hin; now apply (Hfb d0)).
+    rewrite <- sumR_map_scal. apply sumR_map_ext. intros i Hi. apply in_seq in Hi. rewrite mget_div_rows_sq by lia. unfold Cop, Rdiv. rfix. ring.
+  - rewrite (sumR_swap (fun d0 i => E e d0 a * Cop c i d0 * (mget Bf i l / (nth i s 0 * nth i s 0))) (seq 0 n) (seq 0 n)).
+    apply sumR_map_ext. intros i _. unfold Bm. unfold Rdiv. rewrite <- !sumR_map_mul_l. apply sumR_map_ext. intros d0 _. ring.
+Qed.
